@@ -158,7 +158,13 @@ func (fr *Frame) step(instr ssa.Instruction, st *State) *State {
 		for i, r := range x.Results {
 			vals[i] = ex.val(fr, r, st)
 		}
-		fr.rets = append(fr.rets, retRec{st: st, vals: vals, pos: x.Pos()})
+		cne := false
+		if n := len(x.Results); n > 0 {
+			if c, ok := x.Results[n-1].(*ssa.Const); ok && c.Value == nil {
+				cne = true
+			}
+		}
+		fr.rets = append(fr.rets, retRec{st: st, vals: vals, pos: x.Pos(), constNilErr: cne})
 		if !fr.inline && ex.onReturn != nil {
 			// path-sensitive exit checks are made right here, while the VC only
 			// contains what precedes this return
